@@ -270,3 +270,23 @@ M('c02-nc-wrong-line', ['C02'], Y23 + 'fnc_d_400.py', "v['25'] - v['19'] if v['2
 M('c02-guard-flipped', ['C02'], Y23 + 'f1040.py', "FloatField('34', lambda s, i, v: (v['33'] - v['24']) if v['33'] > v['24'] else None),", "FloatField('34', lambda s, i, v: (v['33'] - v['24']) if v['33'] < v['24'] else None),", 'R2', 'overpayment computed when payments are LESS than tax')
 M('c02-reordered-summands', ['C02'], Y23 + 'f1040.py', "FloatField('14', lambda s, i, v: v['12'] + v['13']),", "FloatField('14', lambda s, i, v: float(v['13'] + v['12'])),", None, 'summands reordered and wrapped in float()', 'silent')
 M('c02-guarded-floor', ['C02'], Y23 + 'f1040.py', "FloatField('22', lambda s, i, v: max(0.0, v['18'] - v['21'])),", "FloatField('22', lambda s, i, v: v['18'] - v['21'] if v['18'] > v['21'] else 0.0),", None, 'floor written as a guarded subtraction', 'silent')
+
+# ------------------------------------------------------------------ C15
+M('c15-floor-misplaced', ['C15'], Y22 + 'f1040.py', "FloatField('22', lambda s, i, v: max(0.0, v['18'] - v['21'])),", "FloatField('22', lambda s, i, v: max(0.0, v['18']) - v['21']),", 'R15.2', 'misplaced parenthesis lets line 22 go negative (seed C15-A)')
+M('c15-floor-removed', ['C15'], Y23 + 'f1040.py', "FloatField('15', lambda s, i, v: max(0.0, v['11'] - v['14'])), # Taxable income", "FloatField('15', lambda s, i, v: v['11'] - v['14']), # Taxable income", 'R15.2', 'taxable income can go negative')
+M('c15-guard-flipped', ['C15'], Y23 + 'f1040.py', "FloatField('37', lambda s, i, v: None if v['33'] > v['24'] else v['24'] - v['33']),", "FloatField('37', lambda s, i, v: None if v['33'] < v['24'] else v['24'] - v['33']),", 'R15', 'amount owed produced when payments exceed tax (negative, and both halves positive)')
+M('c15-operands-swapped', ['C15'], Y23 + 'f1040.py', "FloatField('34', lambda s, i, v: (v['33'] - v['24']) if v['33'] > v['24'] else None),", "FloatField('34', lambda s, i, v: (v['24'] - v['33']) if v['33'] > v['24'] else None),", 'R15', 'overpayment has the wrong sign')
+M('c15-both-halves', ['C15'], Y23 + 'f1040.py', "FloatField('37', lambda s, i, v: None if v['33'] > v['24'] else v['24'] - v['33']),", "FloatField('37', lambda s, i, v: v['24'] - v['33'] if v['24'] >= v['33'] else None),", None, 'same split written from the other side (>= instead of not >)', 'silent')
+M('c15-nc-wrong-line', ['C15'], Y23 + 'fnc_d_400.py', "v['25'] - v['19'] if v['25'] >= v['19'] else s.not_implemented()", "v['25'] - v['17'] if v['25'] >= v['19'] else s.not_implemented()", 'R15.1', 'NC overpayment no longer balances (seed C15-B)')
+M('c15-refund-not-reduced', ['C15'], Y23 + 'f1040.py', "FloatField('35a', lambda s, i, v: v['34'] - v['36'] if v['34'] > 0.001 else None),", "FloatField('35a', lambda s, i, v: v['34'] if v['34'] > 0.001 else None),", 'R15.1', 'refund no longer reduced by the amount applied to next year')
+M('c15-apply-unbounded', ['C15'], Y23 + 'f1040.py', "min(v['34'], max(0.0, i['apply_to_estimated_tax']))", "max(0.0, i['apply_to_estimated_tax'])", 'R15.2', 'amount applied to next year may exceed the overpayment: refund goes negative')
+
+# ------------------------------------------------------------------ C16
+M('c16-first-copies-summed', ['C16'], Y22 + 'f1040.py', "            for n in range(i['number_1099-r']):\n                if not v[f'1099-r:{n}.box_7_ira_sep_simple']:", "            for n in range(i['number_1099-r']):\n                if n > 0 and not v[f'1099-r:{n}.box_7_ira_sep_simple']:", 'R16.1', 'copy number 0 is treated differently')
+M('c16-index-weight', ['C16'], Y23 + 'f1040.py', "FloatField('2a', lambda s, i, v: float(sum([v[f'1099-int:{n}.box_8'] for n in range(i['number_1099-int'])]))),", "FloatField('2a', lambda s, i, v: float(sum([v[f'1099-int:{n}.box_8'] * (n + 1) for n in range(i['number_1099-int'])]))),", 'R16.1', 'the index is used in arithmetic')
+M('c16-fixed-copy', ['C16'], Y23 + 'f1040.py', "FloatField('26', lambda s, i, v: i['estimated_tax_payments']),", "FloatField('26', lambda s, i, v: i['estimated_tax_payments'] + v['w-2:0.box_17'] * 0.0),", 'R16.2', 'a line addresses W-2 number 0 by position')
+M('c16-withholding-dropped', ['C16'], Y23 + 'f1040.py', "            withholding = additional_medicare + i['other_federal_withholding']", "            withholding = additional_medicare if additional_medicare > 0.001 else i['other_federal_withholding']", 'R16.3', 'other withholding ignored when Form 8959 applies (seed C16-B)')
+M('c16-withholding-into-income', ['C16'], Y23 + 'f1040.py', "FloatField('23', lambda s, i, v: s.not_implemented() if i['need_schedule_2'] else None),", "FloatField('23', lambda s, i, v: s.not_implemented() if i['need_schedule_2'] else v['25a'] * 0.0),", 'R16.4', 'total tax reads a withholding line')
+M('c16-25d-summand', ['C16'], Y23 + 'f1040.py', "FloatField('25d', lambda s, i, v: v['25a'] + v['25b'] + v['25c']),", "FloatField('25d', lambda s, i, v: v['25a'] + v['25b']),", 'R16.3', 'line 25c dropped from total withholding')
+M('c16-stale-you', ['C16'], Y23 + 'f1040.py', "                    line_4b += v['8606:spouse.taxable_amount']", "                    line_4b += v['8606:you.taxable_amount']", 'R16.5', 'spouse block carries the taxpayer\'s Form 8606 (seed C02-A)')
+M('c16-loop-to-comprehension', ['C16'], Y23 + 'f1040.py', "            for n in range(i['number_w-2']):\n                if v[f'w-2:{n}.box_13_statutory']:\n                    self.not_implemented()\n", "            if any([v[f'w-2:{n}.box_13_statutory'] for n in range(i['number_w-2'])]):\n                self.not_implemented()\n", None, 'loop rewritten as any([...])', 'silent')
